@@ -114,12 +114,19 @@ class _Continue(Exception):
     pass
 
 
+def _same(a, b):
+    """`is`: a class is one object however often its name is looked up"""
+    if isinstance(a, ClassRef) and isinstance(b, ClassRef):
+        return (a.mod, a.cls) == (b.mod, b.cls)
+    return a is b
+
+
 _BUILTIN_TYPES = {"bytes": bytes, "int": int, "str": str, "list": list, "tuple": tuple, "dict": dict, "bool": bool, "bytearray": bytearray, "set": set, "frozenset": frozenset,
                   "float": float, "type": type, "object": object, "memoryview": memoryview}
 _CMP = {
     ast.Eq: lambda a, b: a == b, ast.NotEq: lambda a, b: a != b, ast.Lt: lambda a, b: a < b, ast.LtE: lambda a, b: a <= b,
     ast.Gt: lambda a, b: a > b, ast.GtE: lambda a, b: a >= b, ast.In: lambda a, b: a in b, ast.NotIn: lambda a, b: a not in b,
-    ast.Is: lambda a, b: a is b, ast.IsNot: lambda a, b: a is not b,
+    ast.Is: lambda a, b: _same(a, b), ast.IsNot: lambda a, b: not _same(a, b),
 }
 _BIN = {
     ast.Add: lambda a, b: a + b, ast.Sub: lambda a, b: a - b, ast.Mult: lambda a, b: a * b, ast.FloorDiv: lambda a, b: a // b,
